@@ -38,6 +38,11 @@ def _cv(v):
         return (type(v).__name__,) + concrete(v)
     if isinstance(v, list):
         return ("list",) + tuple(_cv(x) for x in v)
+    if isinstance(v, impl.Quantity):
+        return ("Quantity", _cv(v.value), v.units)
+    if isinstance(v, dict):
+        # a plain mapping put into the container by hand: its class is part of what a copy must keep
+        return (type(v).__name__,) + tuple((k, _cv(x)) for k, x in v.items())
     return v
 
 
